@@ -9,6 +9,7 @@ import (
 	"errors"
 	"fmt"
 	"io"
+	"strings"
 	"sync/atomic"
 	"time"
 
@@ -309,14 +310,14 @@ func (c *c08) entries(dir string, src []byte, ref g7Entry, in string, emit bool,
 				if dir == "dec" {
 					pred = "dec_feed_ok"
 				}
-				r.Case(fmt.Sprintf("%s %s cuts %d %d", name, in, cut1, cut2), fmt.Sprintf("%s [%s; %s; %s] %d %s", pred, coqHex(src[:cut1]), coqHex(src[cut1:cut2]), coqHex(src[cut2:]), got.cls, coqHex(got.out)))
+				c.kase(fmt.Sprintf("%s %s cuts %d %d", name, in, cut1, cut2), fmt.Sprintf("%s [%s; %s; %s] %d %s", pred, coqHex(src[:cut1]), coqHex(src[cut1:cut2]), coqHex(src[cut2:]), got.cls, coqHex(got.out)))
 				continue
 			}
 			c.nEntry++
 			if got.cls == ref.cls && bytes.Equal(got.out, ref.out) && c.nEntry%7 != 0 && (c.nEntry+3)%7 != 0 {
 				continue
 			}
-			r.Case(fmt.Sprintf("%s %s", name, in), fmt.Sprintf("%s %s %d %s", pred, coqHex(src), got.cls, coqHex(got.out)))
+			c.kase(fmt.Sprintf("%s %s", name, in), fmt.Sprintf("%s %s %d %s", pred, coqHex(src), got.cls, coqHex(got.out)))
 		}
 	}
 }
@@ -365,7 +366,7 @@ func (c *c08) xfEnc(s string, e g7Enc, in string, level int) {
 				if call.cls == 0 && call.nDst >= 0 && call.nDst <= len(dst) {
 					out = dst[:call.nDst]
 				}
-				r.Case(fmt.Sprintf("enc Transform cap=%d fill=%d %s", cp, fill, in),
+				c.kase(fmt.Sprintf("enc Transform cap=%d fill=%d %s", cp, fill, in),
 					fmt.Sprintf("enc_call_ok %s %s true %d %d%%nat %d%%nat %s", coqDst(cp, fill, d0), coqHex(src), call.cls, nat(call.nDst), nat(call.nSrc), coqHex(out)))
 			}
 		}
@@ -394,7 +395,7 @@ func (c *c08) xfEnc(s string, e g7Enc, in string, level int) {
 		where := in + fmt.Sprintf(" len(dst)=%d atEOF=false", cp)
 		c.judgeNotAtEOF("encode", call, where, dst)
 		if call.cls == 4 || call.cls == 1 || call.cls == 2 {
-			r.Case("enc Transform atEOF=false "+in, fmt.Sprintf("enc_call_ok %s %s false %d %d%%nat %d%%nat %s", coqDst(cp, 0xFF, d0), coqHex(src), call.cls, nat(call.nDst), nat(call.nSrc), coqHex(nil)))
+			c.kase("enc Transform atEOF=false "+in, fmt.Sprintf("enc_call_ok %s %s false %d %d%%nat %d%%nat %s", coqDst(cp, 0xFF, d0), coqHex(src), call.cls, nat(call.nDst), nat(call.nSrc), coqHex(nil)))
 		}
 	}
 }
@@ -506,7 +507,7 @@ func (c *c08) xfDec(src []byte, dcls int, text []byte, in string, level int) {
 			if call.cls == 0 && call.nDst >= 0 && call.nDst <= len(dst) {
 				out = dst[:call.nDst]
 			}
-			r.Case(fmt.Sprintf("dec Transform cap=%d fill=%d %s", cp, fill, in),
+			c.kase(fmt.Sprintf("dec Transform cap=%d fill=%d %s", cp, fill, in),
 				fmt.Sprintf("dec_call_ok %s %s true %d %d%%nat %d%%nat %s", coqDst(cp, fill, d0), coqHex(src), call.cls, nat(call.nDst), nat(call.nSrc), coqHex(out)))
 		}
 	}
@@ -517,7 +518,111 @@ func (c *c08) xfDec(src []byte, dcls int, text []byte, in string, level int) {
 		call := g7Xf("dec/Transform", gsm7bit.Packed.NewDecoder().Transformer, false, dst, src, false)
 		c.judgeNotAtEOF("decode", call, in+fmt.Sprintf(" len(dst)=%d atEOF=false", cp), dst)
 		if call.cls == 4 || call.cls == 1 || call.cls == 2 {
-			r.Case("dec Transform atEOF=false "+in, fmt.Sprintf("dec_call_ok %s %s false %d %d%%nat %d%%nat %s", coqDst(cp, 0xFF, d0), coqHex(src), call.cls, nat(call.nDst), nat(call.nSrc), coqHex(nil)))
+			c.kase("dec Transform atEOF=false "+in, fmt.Sprintf("dec_call_ok %s %s false %d %d%%nat %d%%nat %s", coqDst(cp, 0xFF, d0), coqHex(src), call.cls, nat(call.nDst), nat(call.nSrc), coqHex(nil)))
 		}
 	}
+}
+
+// kase emits a model case unless the current input is muted (very long inputs: the model packs in
+// quadratic time, the direct tests above are what looks at them)
+func (c *c08) kase(desc, expr string) {
+	if !c.mute {
+		c.r.Case(desc, expr)
+	}
+}
+
+// histories: state across calls.  One transformer object (never re-created, Reset only now and then)
+// receives runs of calls whose sources have the SAME length in octets but differ, with destinations that
+// are too small, exact, pre-filled, and with atEOF=false in between: every call must answer as a function
+// of its own arguments (judged against the independent reference packing, and as a model case each).
+func (c *c08) histories() {
+	r := c.r
+	pools := [][]string{
+		{"abc", "xyz", "a\rb", "[[[", "]~^", "ab`", "a£", "€", "@@@", "\r\r\r"},
+		{"abcdefgh", "12345678", "[[[[[[[[", "abcdefg\r", "€€ab", "aaaaaaa`", "@@@@@@@@", "1234567\r"},
+		{"abcdefg", "1234567", "[{|}~^]", "abcde\r\r", "€€@", "abcdef\u007f"},
+	}
+	enc := gsm7bit.Packed.NewEncoder().Transformer
+	dec := gsm7bit.Packed.NewDecoder().Transformer
+	nh := r.N(60, 600)
+	for h := 0; h < nh; h++ {
+		pool := pools[h%len(pools)]
+		var trail []string
+		for step := 0; step < 6; step++ {
+			s := pool[r.Rng.Intn(len(pool))]
+			src := []byte(s)
+			want, accepted := stdTextSeptets([]rune(s))
+			var ref []byte
+			if accepted {
+				f := want
+				if len(want)%8 == 7 {
+					f = append(append([]byte{}, want...), 0x0D)
+				}
+				ref = refPack(f)
+			}
+			need := len(ref)
+			cp := []int{0, need - 1, need, need, need + 3, len(src)}[r.Rng.Intn(6)]
+			if cp < 0 {
+				cp = 0
+			}
+			atEOF := r.Rng.Intn(8) != 0
+			fill := []int{0xFF, -1, 0x00}[r.Rng.Intn(3)]
+			d0 := mkDst(cp, fill, r.Rng)
+			dst := append([]byte{}, d0...)
+			call := g7Xf("enc/Transform", enc, r.Rng.Intn(5) == 0, dst, src, atEOF)
+			trail = append(trail, fmt.Sprintf("Transform(len(dst)=%d %s, %q, atEOF=%v)->class %d nDst=%d nSrc=%d", cp, fillName(fill, d0), s, atEOF, call.cls, call.nDst, call.nSrc))
+			where := "history on one encoder object: " + strings.Join(trail, "; ")
+			r.Count(fmt.Sprintf("hist/%d/%d", h, step), true, "history step on one encoder object")
+			amb := accepted && len(want) > 0 && len(want)%8 == 0 && s[len(s)-1] == '\r'
+			if atEOF {
+				c.judgeCall("encode", call, where, len(src), cp, need, accepted, ref, !amb)
+				if accepted && call.cls == 3 && cp >= need+2 {
+					r.Fail("xf/encode/call-depends-on-earlier-calls", "ErrShortDst although the destination has room: the answer depends on an earlier call", where, fmt.Sprintf("len(dst)=%d need=%d", cp, need), "the octets")
+				}
+			} else {
+				c.judgeNotAtEOF("encode", call, where, dst)
+			}
+			if call.cls != 5 && (call.cls != 3 || (call.nDst == 0 && call.nSrc == 0)) && (atEOF || call.cls == 4 || call.cls == 1 || call.cls == 2) {
+				out := []byte{}
+				if call.cls == 0 && call.nDst >= 0 && call.nDst <= len(dst) {
+					out = dst[:call.nDst]
+				}
+				c.kase(fmt.Sprintf("history %d step %d: enc Transform %q cap=%d", h, step, s, cp),
+					fmt.Sprintf("enc_call_ok %s %s %s %d %d%%nat %d%%nat %s", coqDst(cp, fill, d0), coqHex(src), coqBool(atEOF), call.cls, nat(call.nDst), nat(call.nSrc), coqHex(out)))
+			}
+			// the decoder object in the same history, on what the reference says the octets are
+			if accepted && need > 0 && step%2 == 1 {
+				text := []byte(s)
+				if amb {
+					text = text[:len(text)-1]
+				}
+				dcp := []int{0, len(text) - 1, len(text), len(text) + 1, len(text) + 4}[r.Rng.Intn(5)]
+				if dcp < 0 {
+					dcp = 0
+				}
+				dd0 := mkDst(dcp, fill, r.Rng)
+				ddst := append([]byte{}, dd0...)
+				dcall := g7Xf("dec/Transform", dec, false, ddst, ref, true)
+				trail = append(trail, fmt.Sprintf("decoder Transform(len(dst)=%d, %x)->class %d nDst=%d nSrc=%d", dcp, ref, dcall.cls, dcall.nDst, dcall.nSrc))
+				c.judgeCall("decode", dcall, "history on one decoder object: "+strings.Join(trail, "; "), len(ref), dcp, len(text), true, text, !hasD16s(s))
+				if dcall.cls != 5 && (dcall.cls != 3 || (dcall.nDst == 0 && dcall.nSrc == 0)) {
+					out := []byte{}
+					if dcall.cls == 0 && dcall.nDst >= 0 && dcall.nDst <= len(ddst) {
+						out = ddst[:dcall.nDst]
+					}
+					c.kase(fmt.Sprintf("history %d step %d: dec Transform %x cap=%d", h, step, ref, dcp),
+						fmt.Sprintf("dec_call_ok %s %s true %d %d%%nat %d%%nat %s", coqDst(dcp, fill, dd0), coqHex(ref), dcall.cls, nat(dcall.nDst), nat(dcall.nSrc), coqHex(out)))
+				}
+			}
+		}
+	}
+}
+
+func hasD16s(s string) bool {
+	for _, x := range s {
+		if isD16(x) {
+			return true
+		}
+	}
+	return false
 }
